@@ -874,10 +874,12 @@ impl Mon {
                         let ok = match (name, info.kind) {
                             (_, Kind::WithdrawFees) | (_, Kind::WithdrawInsurance) => admin_signed,
                             ("fee", Kind::WithdrawFeesPermissionless) => {
-                                // into the canonical ATA of the destination the admin fixed
-                                let m = w.mint_of_bank(bi);
-                                let dst = crate::ix::ata(&pre.fees_destination_account, &m.key, &m.program());
-                                pre.fees_destination_account != Pubkey::default() && v.ev.pre_of(&dst).is_some() && v.post(&dst).and_then(token_amount).unwrap_or(0) > v.pre(&dst).and_then(token_amount).unwrap_or(0)
+                                // into the token account the admin fixed as destination, nowhere else
+                                // (a Token-2022 transfer fee may keep the whole amount as withheld fee, so
+                                // "the destination gained" is not required - "nobody else gained" is)
+                                let dst = pre.fees_destination_account;
+                                let others_gained = v.ev.pre.iter().any(|s| s.key != dst && s.key != vault && token_amount(&s.data).map(|a0| v.post(&s.key).and_then(token_amount).unwrap_or(0) > a0).unwrap_or(false));
+                                pre.fees_destination_account != Pubkey::default() && v.ev.pre_of(&dst).is_some() && !others_gained
                             }
                             ("insurance", Kind::HandleBankruptcy) => true,
                             _ => false,
